@@ -28,6 +28,7 @@ package backtest
 // one worker: for every asset whose snapshots can be read and whose AssetBegin succeeds, the report receives
 // AssetBegin(name), then exactly one Write(name, strategy j, ...) per strategy in order, then AssetEnd(name)
 //@ func Backtest.worker
+//@ modifies b.report
 //@ requires consumed(names) == 0 && len(b.Strategies) >= 1
 //@ ensures[C13] "only-asset-events" forall i :: old(nev(b.report)) <= i && i < nev(b.report) ==> 2 <= evkind(b.report, i) && evkind(b.report, i) <= 4
 //@ ensures[C13] "asset-begin-is-closed-by-asset-end" forall i :: old(nev(b.report)) <= i && i < nev(b.report) && evkind(b.report, i) == 2 ==> i + len(b.Strategies) + 1 < nev(b.report) && evkind(b.report, i + len(b.Strategies) + 1) == 4 && evname(b.report, i + len(b.Strategies) + 1) == evname(b.report, i)
@@ -42,3 +43,45 @@ package backtest
 //@ loop#1 invariant forall i :: old(nev(b.report)) <= i && i < (nev(b.report) - 1 - idx1) ==> 2 <= evkind(b.report, i) && evkind(b.report, i) <= 4
 //@ loop#1 invariant forall i :: old(nev(b.report)) <= i && i < (nev(b.report) - 1 - idx1) && evkind(b.report, i) == 2 ==> i + len(b.Strategies) + 1 < (nev(b.report) - 1 - idx1) && evkind(b.report, i + len(b.Strategies) + 1) == 4 && evname(b.report, i + len(b.Strategies) + 1) == evname(b.report, i)
 //@ loop#1 invariant forall i, m :: old(nev(b.report)) <= i && i < (nev(b.report) - 1 - idx1) && evkind(b.report, i) == 2 && i < m && m <= i + len(b.Strategies) ==> evkind(b.report, m) == 3 && evname(b.report, m) == evname(b.report, i) && evstrat(b.report, m) == b.Strategies[m - i - 1]
+
+// Run: Begin first, End last, and in between only complete asset blocks (one worker; see Backtest.worker)
+//@ func Backtest.Run
+//@ modifies b, b.report
+//@ ensures[C13] "begin-first-end-last" result == nil ==> nev(b.report) >= old(nev(b.report)) + 2 && evkind(b.report, old(nev(b.report))) == 1 && evkind(b.report, nev(b.report) - 1) == 5 && len(b.Strategies) >= 1
+//@ ensures[C13] "only-asset-events-between" result == nil ==> (forall i :: old(nev(b.report)) + 1 <= i && i < nev(b.report) - 1 ==> 2 <= evkind(b.report, i) && evkind(b.report, i) <= 4)
+//@ ensures[C13] "asset-blocks-complete" result == nil ==> (forall i :: old(nev(b.report)) + 1 <= i && i < nev(b.report) - 1 && evkind(b.report, i) == 2 ==> i + len(b.Strategies) + 1 < nev(b.report) - 1 && evkind(b.report, i + len(b.Strategies) + 1) == 4 && evname(b.report, i + len(b.Strategies) + 1) == evname(b.report, i))
+//@ ensures[C13] "one-write-per-strategy-in-order" result == nil ==> (forall i, m :: old(nev(b.report)) + 1 <= i && i < nev(b.report) - 1 && evkind(b.report, i) == 2 && i < m && m <= i + len(b.Strategies) ==> evkind(b.report, m) == 3 && evname(b.report, m) == evname(b.report, i) && evstrat(b.report, m) == b.Strategies[m - i - 1])
+
+// ---- DataReport: one result per Write, carrying the last outcome and action of that (asset, strategy) run -----------
+//@ func DataReport.AssetBegin
+//@ modifies d
+//@ ensures[C13] result == nil && has(d.Results, name) && len(d.Results[name]) == 0
+//@ ensures[C13] forall n str :: n != name ==> has(d.Results, n) == old(has(d.Results, n)) && sameslice(d.Results[n], old(d.Results[n]))
+
+//@ func DataReport.Write
+//@ requires consumed(snapshots) == 0 && consumed(actions) == 0 && consumed(outcomes) == 0
+//@ modifies d
+//@ ensures[C13] result == nil && has(d.Results, assetName) && len(d.Results[assetName]) == old(len(d.Results[assetName])) + 1
+//@ ensures[C13] forall k :: 0 <= k && k < old(len(d.Results[assetName])) ==> d.Results[assetName][k] == old(d.Results[assetName][k])
+//@ ensures[C13] "result-is-the-last-outcome-and-action" d.Results[assetName][old(len(d.Results[assetName]))].Asset == assetName && d.Results[assetName][old(len(d.Results[assetName]))].Strategy == currentStrategy && (len(outcomes) > 0 ==> d.Results[assetName][old(len(d.Results[assetName]))].Outcome == outcomes[len(outcomes) - 1]) && (len(actions) > 0 ==> d.Results[assetName][old(len(d.Results[assetName]))].Action == actions[len(actions) - 1])
+//@ ensures[C13] forall n str :: n != assetName ==> has(d.Results, n) == old(has(d.Results, n)) && sameslice(d.Results[n], old(d.Results[n]))
+//@ ensures[C03] consumed(actions) == len(actions) && consumed(outcomes) == len(outcomes)
+
+// ---- HTMLReport ranking: results are presented in non-increasing outcome order, the best one is maximal ---------------
+//@ func HTMLReport.writeAssetReport
+//@ trusted renders a template to a file (text/template, os): outside the verifier's subset
+//@ func HTMLReport.writeReport
+//@ trusted renders a template to a file (text/template, os): outside the verifier's subset
+
+//@ func HTMLReport.AssetEnd
+//@ modifies h
+//@ requires has(h.assetResults, name) ==> len(h.assetResults[name]) >= 1
+//@ ensures[C13] "best-result-is-maximal" has(old(h.assetResults), name) ==> len(h.bestResults) == old(len(h.bestResults)) + 1 && (forall k :: 0 <= k && k < old(len(h.assetResults[name])) ==> h.bestResults[old(len(h.bestResults))].Outcome >= old(h.assetResults[name][k].Outcome))
+//@ ensures[C13] !has(old(h.assetResults), name) ==> result != nil
+//@ lit#0 ensures[C13] "comparator-ranks-higher-outcome-first" ((a.Outcome > b.Outcome) == (ret < 0)) && ((a.Outcome < b.Outcome) == (ret > 0))
+//@ lit#0 sorted a.Outcome >= b.Outcome
+
+//@ func HTMLReport.End
+//@ modifies h
+//@ lit#0 ensures[C13] "comparator-ranks-higher-outcome-first" ((a.Outcome > b.Outcome) == (ret < 0)) && ((a.Outcome < b.Outcome) == (ret > 0))
+//@ lit#0 sorted a.Outcome >= b.Outcome
